@@ -216,6 +216,70 @@ func c14R1(c *Ctx) {
 		}
 	}
 	c.check(clampIf, "handshake/protocol-clamp", c.ipos(sa[0]), "protocol above the relay's maximum is lowered before the re-send", "the relay forwards a protocol version above what it understands")
+	// ... and on every path: from the receive (or the helper's entry) the re-send is reached only through the clamp's
+	// store or over the "not above the maximum" edge of its test; likewise binary is cleared or the tunnel edge taken.
+	// (An early return in an extracted helper — "with a tunnel nothing needs restricting" — skips the clamp.)
+	{
+		edgeOf := func(isTest func(nf fact) (trueEdgeSafe bool, ok bool)) func(from, to *ssa.BasicBlock) bool {
+			return func(from, to *ssa.BasicBlock) bool {
+				i := blockIf(from)
+				if i == nil || len(from.Succs) != 2 || from.Succs[0] == from.Succs[1] {
+					return false
+				}
+				safeTrue, ok := isTest(normFact(fact{V: i.Cond, Pol: true}))
+				if !ok {
+					return false
+				}
+				if safeTrue {
+					return to == from.Succs[0]
+				}
+				return to == from.Succs[1]
+			}
+		}
+		hit, path := reachFromE(sc0.startBlk, sc0.startIdx, sc0.isEnd, func(in ssa.Instruction) bool {
+			st, ok := in.(*ssa.Store)
+			if !ok {
+				return false
+			}
+			fa, ok := st.Addr.(*ssa.FieldAddr)
+			return ok && fa.X == action && fieldName(fa) == "Protocol" && isConstIntV(maxProto)(st.Val)
+		}, edgeOf(func(nf fact) (bool, bool) {
+			op, x, y, ok := cmpFact(nf)
+			if !ok || !isFieldLoad("Protocol")(x) || !isConstIntV(maxProto)(y) {
+				return false, false
+			}
+			switch op {
+			case token.GTR: // Protocol > max: the false edge is safe
+				return false, true
+			case token.LEQ:
+				return true, true
+			}
+			return false, false
+		}))
+		pos := c.ipos(sa[0])
+		if hit != nil {
+			pos = c.ipos(hit)
+		}
+		c.check(hit == nil, "handshake/protocol-clamp-on-every-path", pos, "every path to the re-send lowers the protocol or took the not-above-maximum edge", "a path reaches the re-send of the action without the protocol clamp (e.g. an early return of the narrowing helper): a newer client's version is forwarded unclamped", c.pathStr(path)...)
+		hit, path = reachFromE(sc0.startBlk, sc0.startIdx, sc0.isEnd, func(in ssa.Instruction) bool {
+			for _, s := range clearedBinary {
+				if s == in {
+					return true
+				}
+			}
+			return false
+		}, edgeOf(func(nf fact) (bool, bool) {
+			if base, fl, ok := fieldOf(nf.V); ok && fl == "TunnelConnected" && base == action {
+				return nf.Pol, true // the connected edge needs no clearing
+			}
+			return false, false
+		}))
+		pos = c.ipos(sa[0])
+		if hit != nil {
+			pos = c.ipos(hit)
+		}
+		c.check(hit == nil, "handshake/binary-off-on-every-path", pos, "every path to the re-send clears binary or took the tunnel-connected edge", "a path reaches the re-send of the action with binary still offered although no tunnel is connected", c.pathStr(path)...)
+	}
 	// the relay's config decoder: defaults are stored before the peer's document is decoded over them, nothing afterwards
 	rcf := c.fn("TrzszRelay.recvConfig")
 	var um ssa.Instruction
